@@ -39,8 +39,20 @@ def run_lines(exe, lines, env=None, chunk=400, timeout=600, workers=None):
                 outs[i + k] = out[k]
             if rc != 0 or len(out) < len(c):
                 if len(out) < len(c):
-                    # the process died or hung while answering this request
-                    incidents.append((i + len(out), rc, err))
+                    # the process died or hung while answering this request (harness output is line
+                    # buffered, so the first unanswered request is the one it died in); the requests
+                    # behind it are run again in a new process so that they are answered too
+                    k = len(out)
+                    incidents.append((i + k, rc, err))
+                    rest_at = k + 1
+                    while rest_at < len(c):
+                        rc2, out2, err2 = _run_chunk((exe, c[rest_at:], env, timeout))
+                        for q in range(min(len(out2), len(c) - rest_at)):
+                            outs[i + rest_at + q] = out2[q]
+                        if len(out2) >= len(c) - rest_at:
+                            break
+                        incidents.append((i + rest_at + len(out2), rc2, err2))
+                        rest_at += len(out2) + 1
                 else:
                     # every request was answered but the process reported a problem at exit
                     # (LeakSanitizer): bisect the chunk for a single request that reproduces it
